@@ -49,7 +49,7 @@ func init() {
 	checks["C07"] = func(rc *RunCtx) {
 		mcExecCheck(rc, "MC_C07",
 			map[string]string{"MaxSteps": "2", "MaxNodes": "3"},
-			map[string]string{"MaxSteps": "3", "MaxNodes": "4"},
+			map[string]string{"MaxSteps": "3", "MaxNodes": "3"}, // (3, 4) is 12M cases: 50 minutes and 31 GB (measured)
 			"all accessor/filter chains up to MaxSteps over the 16-step alphabet x all JSON trees up to MaxNodes nodes (plus arrays with an ill-shaped element at each position) x {lax, strict}; distinct cases = distinct (path, document, mode) triples, all non-trivial except the bare $ path",
 			false, "C07", "C01")
 	}
